@@ -18,6 +18,9 @@ var fmtTuples = []model.Fmt4{
 	{LastDirect: "╚══", LastIndirect: "   ", MidDirect: "╠══", MidIndirect: "║  "},
 	{LastDirect: "xy", LastIndirect: "xy", MidDirect: "xy", MidIndirect: "xy"},
 	{LastDirect: "L", LastIndirect: "l", MidDirect: "M", MidIndirect: "m"},
+	// connectors and continuations of unequal byte widths (a prefix cut by the wrong width shows up here)
+	{LastDirect: "\\____", LastIndirect: "  ", MidDirect: "|-", MidIndirect: "|    "},
+	{LastDirect: "", LastIndirect: "xx", MidDirect: "├──", MidIndirect: ""},
 }
 
 var c01Spellings = []enum.Spelling{
@@ -93,6 +96,35 @@ func init() {
 					}
 				})
 			})
+		}
+		// Part 1b: wide fan-out (collection-size thresholds): one parent with k distinct children, then child i is
+		// written again with a grandchild (must merge into the i-th child), for every k <= K and every i
+		maxK := 20
+		if c.Thorough() {
+			maxK = 40
+		}
+		c.Bound("wide_fanout_children", fmt.Sprint(maxK))
+		for k := 1; k <= maxK && !c.Expired(); k++ {
+			for i := 0; i < k; i++ {
+				if !c.Take() {
+					continue
+				}
+				d := []int{1}
+				names := []string{"r"}
+				for j := 0; j < k; j++ {
+					d = append(d, 2)
+					names = append(names, fmt.Sprintf("c%02d", j))
+				}
+				d = append(d, 2, 3, 2)
+				names = append(names, fmt.Sprintf("c%02d", i), "g", "tail")
+				c.StateN(1)
+				c.Nontrivial()
+				c.Inc("wide_fanout_cases")
+				for _, fi := range []int{0, 6} {
+					c01One(c, d, names, c01Spellings[0], fmtTuples[fi])
+				}
+				c01One(c, d, names, c01Spellings[1], fmtTuples[1])
+			}
 		}
 		// Part 2: hostile one-line names (bullet spellings only: a heading trims blanks)
 		for n := 1; n <= maxH && !c.Expired(); n++ {
